@@ -47,6 +47,11 @@ def probe_docs():
         # a subtree re-based with xml:base: element-level URIs inside it are resolved against the base in scope whatever resolve_relative_uris says
         "atom-xmlbase": ('<feed xmlns="http://www.w3.org/2005/Atom"><title>t</title><link href="feedlink"/><entry xml:base="%s"><link href="itemlink"/>'
                          '<content type="html">%s</content></entry></feed>' % (XBASE, m)).encode(),
+        # ill-formed twins: the strict parser gives up (an unclosed element before the end) and the fallback parser produces the result -- the options are per call there too
+        "rss-illformed": ('<rss version="2.0"><channel><title>t</title><link>feedlink</link><item><link>itemlink</link>'
+                          '<description>%s</description></item><trailer></channel></rss>' % m).encode(),
+        "atom-illformed": ('<feed xmlns="http://www.w3.org/2005/Atom"><title>t</title><link href="feedlink"/><entry><link href="itemlink"/>'
+                           '<content type="html">%s</content></entry><trailer></feed>' % m).encode(),
         "rss-xmlbase": ('<rss version="2.0"><channel><title>t</title><link>feedlink</link><item xml:base="%s"><link>itemlink</link>'
                         '<description>%s</description></item></channel></rss>' % (XBASE, m)).encode(),
     }
@@ -188,7 +193,7 @@ def check_config(docname, args, flags, ad, first=None):
 
 def search(ctx, focus=None):
     failures, n, distinct = [], 0, set()
-    for docname in ("rss", "atom", "atom-cdata", "atom-xmlbase", "rss-xmlbase"):
+    for docname in ("rss", "atom", "atom-cdata", "atom-xmlbase", "rss-xmlbase", "rss-illformed", "atom-illformed"):
         for args, flags, ad in grid():
             n += 1
             distinct.add((docname, args, flags, ad))
@@ -219,7 +224,7 @@ def search(ctx, focus=None):
         if f:
             failures.append(f)
     return {"evaluations": n, "distinct_nontrivial": len(distinct), "failures": failures, "exhaustive": True,
-            "rule": "all 27 argument triples x 8 flag triples x scheme allow-list {default, ()} on five probe documents (RSS escaped, Atom escaped, Atom CDATA, Atom / RSS with the entry re-based by xml:base), "
+            "rule": "all 27 argument triples x 8 flag triples x scheme allow-list {default, ()} on seven probe documents (RSS escaped, Atom escaped, Atom CDATA, Atom / RSS with the entry re-based by xml:base, RSS / Atom made ill-formed so that the fallback parser answers), "
                     "each compared with the value constructed from the probe (event-handler attribute present iff sanitize off; embedded relative href resolved iff "
                     "resolve on; javascript: href blanked iff allow-list default; element links always resolved; flags unchanged afterwards); plus call pairs "
                     "(all 64 flag-change pairs with None arguments + %s random/strided pairs) and exotic truthy/falsy flag values; every configuration is distinct" % ("strided" if ctx.thorough else pairs),
